@@ -48,6 +48,7 @@ class SchedRun:
     def __init__(self, ch, cfg, watch_counters=True, on_settled=None):
         self.cfg = cfg
         net = self.net = N.Net()
+        net.ids_down = bool(cfg.get("ids_down"))
         env = net.env
         items = N.menu(N.G5 if cfg.get("gaps", "G5") == "G5" else (N.G3 if cfg["gaps"] == "G3" else cfg["gaps"]),
                        cfg["flows"], cfg["sizes"])
